@@ -268,12 +268,16 @@ def step (s : Sess) (c : Cmd) : Sess × String × String :=
     | "reverse" =>
       fin1 (setMS s k (SList.reverse l) a.reverse m) "st=-"
     | "size" => fin s s!"st=- out={a.length}" s!"st=- out={l.size}"
-    | "contains" => fin s s!"st=- out={LSeq.contains a v}" s!"st=- out={SList.contains l v}"
-    | "contains_value" => fin s s!"st=- out={LSeq.containsValue (pickCmp c) a v}" s!"st=- out={SList.containsValue (pickCmp c) l v}"
+    | "contains" =>
+      let r := SList.contains l v m
+      fin { s with mem := r.2 } s!"st=- out={LSeq.contains a v}" s!"st=- out={r.1}"
+    | "contains_value" =>
+      let r := SList.containsValue (pickCmp c) l v m
+      fin { s with mem := r.2 } s!"st=- out={LSeq.containsValue (pickCmp c) a v}" s!"st=- out={r.1}"
     | "index_of" =>
-      let r := SList.indexOf l v
+      let r := SList.indexOf l v m
       let q := LSeq.indexOf LSeq.cmpNum a v
-      fin s (hOut q.1 q.2) (hOut r.1 r.2)
+      fin { s with mem := r.2.2 } (hOut q.1 q.2) (hOut r.1 r.2.1)
     | "to_array" =>
       let r := SList.toArray l m
       let q := LSeq.toArray true a
@@ -281,7 +285,9 @@ def step (s : Sess) (c : Cmd) : Sess × String × String :=
       let h (st : Stat) (o : Option (List Nat)) := match o with | some xs => s!"{fmtStat st} arr={fmtList xs}" | none => fmtStat st
       -- the harness (the caller) releases the array it was handed
       fin { s with mem := if r.1 == .ok then r.2.2.freeT l.triple else r.2.2 } (h q.1 q.2) (h r.1 r.2.1)
-    | "foreach" => fin s s!"st=- cb={fmtList a}" s!"st=- cb={fmtList (SList.foreach l)}"
+    | "foreach" =>
+      let r := SList.foreach l m
+      fin { s with mem := r.2 } s!"st=- cb={fmtList a}" s!"st=- cb={fmtList r.1}"
     | "filter_mut" =>
       let r := SList.filterMut LSeq.predEven l m
       let q := LSeq.filterMut LSeq.predEven a
